@@ -46,6 +46,12 @@ class Ctx:
     def rng(self, stream):
         return rng_for(self.prop, self.seed, stream)
 
+    def n(self, quick_n, thorough_n):
+        """case budget: thorough tier, or quick - tripled when a modelled function's AST differs from the pinned fingerprint"""
+        if self.tier == "thorough":
+            return thorough_n
+        return quick_n * 3 if getattr(self, "source_changed", False) else quick_n
+
     def deadline(self, frac=0.85):
         return self.t0 + self.budget_s * frac
 
